@@ -781,6 +781,11 @@ func main() {
 		}
 		lanes = append(lanes, l)
 	}
+	hookLane, err := startHookLane(run, nl, be.URL) // (composed with the others, before any traffic)
+	if err != nil {
+		run.Inconclusive("start proxy: %v", err)
+		run.Finish()
+	}
 	run.Set("handshake_timeout_ms", handshakeTimeout.Milliseconds())
 	run.Set("http_idle_timeout_ms", idleTimeout.Milliseconds())
 
@@ -815,6 +820,8 @@ func main() {
 			}
 		}(li, l)
 	}
+	wg.Add(1)
+	go func() { defer wg.Done(); hookLane.hookPanics() }()
 	wg.Wait()
 	run.Logf("singles done")
 
@@ -835,7 +842,7 @@ func main() {
 
 	// final: nothing moves once everything is over, and totals equal Accept() returns per proxy
 	time.Sleep(200 * time.Millisecond)
-	for _, l := range lanes {
+	for _, l := range append(append([]*lane{}, lanes...), hookLane) {
 		final := l.gather(nil)
 		if d := diff(final, l.prev); len(d) != 0 && run.Violations() == 0 {
 			run.Violation("moved-at-rest", nil, "proxy %d: requests_total moved by %v while no connection existed", l.id, d)
@@ -849,9 +856,10 @@ func main() {
 	run.Add("gathers", atomic.LoadInt64(&gathers))
 	run.Set("max_settle_latency_us_single", atomic.LoadInt64(&maxSettleUs))
 	run.Set("max_settle_latency_us_batch", atomic.LoadInt64(&maxBatchSetUs))
-	for _, l := range lanes {
+	for _, l := range append(append([]*lane{}, lanes...), hookLane) {
 		l.px.Stop()
 	}
+	run.Require("single_conn_hook_panicked", 8)
 
 	run.Require("single_conn_h2", 15)
 	run.Require("single_conn_h1", 15)
